@@ -108,7 +108,7 @@ def near_chain(seed_parts):
     rng = util.rng_for(*seed_parts)
     p = int(rng.integers(2, 9))
     W = np.zeros((p, p))
-    style = int(rng.integers(0, 6))
+    style = int(rng.integers(0, 8))
     sign = float(rng.choice([-1, 1]))
     for i in range(p - 1):
         mag = float(rng.choice([1.0, 2.0, 0.5, 1e-9, 3.7])) if style != 0 else 1.0
@@ -120,4 +120,36 @@ def near_chain(seed_parts):
                 W[a, b] = -sign * float(rng.choice([1.0, 0.3, 2.0])) if style != 4 else sign
     if style == 5:
         W = W.T.copy()      # reversed chain: a chain graph, but not the canonical one
+    if style in (6, 7):
+        # the exact unit-weight canonical chain plus one or two extra edges that are non-zero but minute: not a chain
+        W = np.zeros((p, p))
+        for i in range(p - 1):
+            W[i, i + 1] = 1.0
+        if p >= 3:
+            for _ in range(int(rng.integers(1, 3))):
+                a, b = sorted(int(v) for v in rng.choice(p, 2, replace=False))
+                if b - a >= 2:
+                    W[a, b] = float(rng.choice([-1, 1])) * float(rng.choice([1e-9, 1e-12, 1e-100, 5e-324]))
+        if style == 7:
+            W[W == 1.0] = 1.0 + 1e-10      # still exactly a chain pattern, weights merely close to 1
     return W
+
+
+def repeat_after_overwrite(rec, family, case, prop, name, fn, args, first):
+    """The caller overwrites the array(s) an earlier call returned (they are his), then repeats the call with equal
+    arguments: the answer must be the same graph(s).  ``first`` is the earlier result (ndarray)."""
+    first = np.asarray(first)
+    if first.size == 0 or not first.flags.writeable:
+        return
+    keep = first.copy()
+    first[...] = 1 - (first != 0) if first.dtype.kind in "iub" else 7.0
+    rec.count("repeat-after-caller-overwrote-result:" + name)
+    try:
+        again = np.asarray(fn(*args))
+    except Exception as e:
+        rec.exception_violation("%s:%s-repeat-exception" % (prop, name), family, case, "%s raised when repeated after the caller overwrote its earlier result" % name, e)
+        return
+    if again.shape != keep.shape or not ((again != 0) == (keep != 0)).all():
+        rec.violation("%s:%s-depends-on-overwritten-earlier-result" % (prop, name), family, case,
+                      "%s returns a different graph after the caller overwrote the array returned by an earlier, identical call" % name,
+                      first_result=keep, second_result=again)
